@@ -10,7 +10,7 @@ From GM Require Import Base.Topic Base.Msg Model.TopicMatch Model.CodecBase Mode
   Model.CodecSpec Oracle.C06O
   Proofs.CodecBaseP Proofs.CodecStrP Proofs.CodecTotalP Proofs.CodecSizeP Proofs.CodecPropsP Proofs.CodecPropsInvP
   Proofs.CodecWillP Proofs.CodecRoundP Proofs.CodecReencP Proofs.CodecRound2P Proofs.CodecConnectP Proofs.CodecReencAllP
-  Proofs.CodecTopicP Proofs.CodecMsgP.
+  Proofs.CodecUtf8P Proofs.CodecTopicP Proofs.CodecFilterP Proofs.CodecMsgP Proofs.CodecSpecP.
 Open Scope N_scope.
 
 (* ---- totality: for every version and every byte sequence ReadPacket returns a packet or an
@@ -80,6 +80,14 @@ Proof.
 Qed.
 Print Assumptions C06_varint.
 
+(* a variable byte integer is read from at most four bytes [MQTT-1.5.5-1], its value is below 2^28,
+   and the input ending inside it is an error *)
+Theorem C06_varint_bounded :
+  forall (b : list N) (v : N) (r : list N),
+    read_varint b = Ok (v, r) -> len r <= len b /\ len b - len r <= 4 /\ v <= 268435455.
+Proof. exact (fun b v r H => conj (proj1 (read_varint_four b v r H)) (conj (proj2 (read_varint_four b v r H)) (read_varint_bound b v r H))). Qed.
+Print Assumptions C06_varint_bounded.
+
 (* ---- strings: readUTF8String reads back what writeBinary / EncodeUTF8String wrote *)
 Theorem C06_string :
   forall (must : bool) (s : str) (rest : list N),
@@ -107,20 +115,12 @@ Print Assumptions C06_props.
 (* ---- re-encoding.  reencodes v bs: if ReadPacket accepts a packet p from bs, then whatever Pack
    writes for p, ReadPacket decodes completely, to a packet p' equal to p in every field
    (p' == p is equality of p_body: everything but the cached FixHeader).
-   As stated this is false: *)
-Theorem C06_reencode_refuted :
-  (exists v bs, bytes_ok bs /\ ~ reencodes v bs) /\ ~ reencodes 4 connect_wq3.
-Proof. exact (conj reencode_refuted reencode_refuted_willqos). Qed.
-Print Assumptions C06_reencode_refuted.
-(* it holds for all fifteen packet types under v3.1, v3.1.1 and v5 on every input (bytes < 256)
-   outside the two known findings (CONNECT with protocol level 3; Will QoS 3) *)
-Theorem C06_reencode_partial :
+   For all fifteen packet types under v3.1, v3.1.1 and v5, on every input (bytes < 256): *)
+Theorem C06_reencode :
   forall (v : N) (bs : list N),
-    (v = 3 \/ v = 4 \/ v = 5) -> bytes_ok bs ->
-    kf_connect_v31_pack v bs = false -> kf_will_qos3 v bs = false ->
-    reencodes v bs.
-Proof. exact reencode_partial. Qed.
-Print Assumptions C06_reencode_partial.
+    (v = 3 \/ v = 4 \/ v = 5) -> bytes_ok bs -> reencodes v bs.
+Proof. exact reencode_all. Qed.
+Print Assumptions C06_reencode.
 (* what the decoder guarantees about every packet it returns (field ranges, valid strings and
    topics, sorted duplicate-free whitelisted properties): the invariant the round trip rests on *)
 Theorem C06_decoded_invariant :
@@ -128,6 +128,22 @@ Theorem C06_decoded_invariant :
     read_packet v bs = Ok (p, rest) -> bytes_ok bs -> dec_inv_all v (p_body p).
 Proof. exact read_packet_inv. Qed.
 Print Assumptions C06_decoded_invariant.
+
+(* ---- the independent codec, for PUBLISH under MQTT 3.1 / 3.1.1: for every well-formed value
+   (wf_packet: QoS, DUP, packet identifier, topic name per MQTT 4.7, lengths) whose topic has no
+   U+FFFD, Pack and the specification encoder write the same bytes, the specification decoder
+   reads them back to the value, and so does ReadPacket.  (All other packet types and v5: checked
+   on every run by the suites `codec` and `cenc`, not proved.) *)
+Theorem C06_spec_agree_publish3 :
+  forall (v : N) (dup : bool) (qos : N) (retain : bool) (topic : str) (pid : N) (payload : str),
+    (v = 3 \/ v = 4) ->
+    let b := BPublish v dup qos retain topic pid payload None in
+    wf_packet b = true -> has_fffd topic = false ->
+    pack b = Ok (spec_encode b)
+    /\ spec_decode v (spec_encode b) = SOk (b, [])
+    /\ exists p', read_packet v (spec_encode b) = Ok (p', []) /\ p_body p' = b.
+Proof. exact spec_agree_publish3. Qed.
+Print Assumptions C06_spec_agree_publish3.
 
 (* ---- sizes: after Pack, TotalBytes is the number of bytes written *)
 Theorem C06_size :
@@ -144,12 +160,18 @@ Theorem C06_msg_size :
 Proof. exact msg_total_bytes_pack. Qed.
 Print Assumptions C06_msg_size.
 
-(* ---- topic names and filters.  The equivalences with MQTT 4.7 / 1.5.4 are false today: *)
+(* ---- topic names and filters.  ValidTopicFilter without the UTF-8 requirement IS the level rule
+   of MQTT 4.7.1 (every '+' occupies a whole level, '#' is a whole last level), on every byte string *)
+Theorem C06_topic_filter_exact :
+  forall (s : str), valid_topic_filter_impl false s = Ok (valid_filter_spec s).
+Proof. exact filter_bytes_exact. Qed.
+Print Assumptions C06_topic_filter_exact.
+(* the other equivalences with MQTT 4.7 / 1.5.4 are still false: the empty topic name is accepted;
+   with mustUTF8 the topic predicates refuse U+FFFD (and accept U+0000 when called directly) *)
 Theorem C06_topics_refuted :
-  ~ name_equiv /\ ~ name_bytes_equiv /\ ~ filter_equiv /\ ~ filter_bytes_equiv /\ ~ v5_filter_equiv /\ ~ utf8_equiv.
+  ~ name_equiv /\ ~ name_bytes_equiv /\ ~ filter_equiv /\ ~ v5_filter_equiv.
 Proof.
-  exact (conj name_equiv_refuted (conj name_bytes_equiv_refuted (conj filter_equiv_refuted
-        (conj filter_bytes_equiv_refuted (conj v5_filter_equiv_refuted utf8_equiv_refuted))))).
+  exact (conj name_equiv_refuted (conj name_bytes_equiv_refuted (conj filter_equiv_refuted v5_filter_equiv_refuted))).
 Qed.
 Print Assumptions C06_topics_refuted.
 (* ValidTopicName without the UTF-8 requirement is the specification's predicate on every
@@ -158,6 +180,39 @@ Theorem C06_topic_name_partial :
   forall (s : str), kf_t_name_empty s = false -> valid_topic_name_impl false s = Ok (valid_name_spec s).
 Proof. exact name_bytes_partial. Qed.
 Print Assumptions C06_topic_name_partial.
+
+(* ValidUTF8 on EVERY byte string: well-formed UTF-8 (Unicode table 3-7: no surrogates, no
+   overlong forms, nothing above U+10FFFF), no U+0000, no control characters *)
+Theorem C06_utf8_exact :
+  forall (s : str), valid_utf8_impl s = Ok (spec_utf8 s && negb (has_ctl s)).
+Proof. exact valid_utf8_impl_spec. Qed.
+Print Assumptions C06_utf8_exact.
+(* hence the verdict MQTT 1.5.4 asks for (accept what must be accepted; control characters may be
+   refused), on every byte string *)
+Theorem C06_utf8_verdict :
+  forall (s : str), utf8_verdict_ok s (tb_of (valid_utf8_impl s)) = true.
+Proof. exact utf8_verdict. Qed.
+Print Assumptions C06_utf8_verdict.
+(* ValidTopicName(true, s) and ValidTopicFilter(true, s), as the decoder uses them (after
+   readUTF8String(true, ..) accepted s): the specification's verdict on every s without U+FFFD
+   (and, for names, non-empty) *)
+Theorem C06_topic_name_decoder_partial :
+  forall (s : str), valid_utf8_impl s = Ok true -> kf_t_fffd s = false -> kf_t_name_empty s = false ->
+    valid_topic_name_impl true s = Ok (spec_topic_name s).
+Proof. exact name_decoder_partial. Qed.
+Print Assumptions C06_topic_name_decoder_partial.
+Theorem C06_topic_filter_decoder_partial :
+  forall (s : str), valid_utf8_impl s = Ok true -> kf_t_fffd s = false ->
+    valid_topic_filter_impl true s = Ok (spec_topic_filter s).
+Proof. exact filter_decoder_partial. Qed.
+Print Assumptions C06_topic_filter_decoder_partial.
+(* the same for ValidV5Topic: MQTT 4.7.1 filters and 4.8.2 shared subscriptions
+   ($share/{ShareName}/{filter}, ShareName non-empty without "/", "+", "#") *)
+Theorem C06_topic_v5_decoder_partial :
+  forall (s : str), valid_utf8_impl s = Ok true -> kf_t_fffd s = false ->
+    valid_v5_topic_impl s = Ok (spec_v5_filter s).
+Proof. exact v5_decoder_partial. Qed.
+Print Assumptions C06_topic_v5_decoder_partial.
 
 (* ---- non-vacuity *)
 (* a v5 PUBLISH (QoS 1, topic "a/b", pid 10, content type "t", one user property, payload "hi")
@@ -174,17 +229,33 @@ Example C06_nonvacuous_publish :
   end.
 Proof. vm_compute. repeat split. Qed.
 
-(* the known deviations are real: each witness is accepted (or refused) by the model of the code *)
+(* the open deviations are real: each witness is accepted by the model of the code *)
 Example C06_nonvacuous_findings :
-  (* PINGREQ from a single byte: the Remaining Length field is missing *)
-  (exists p, read_packet 4 [192] = Ok (p, [])) /\ kf_varint_eof 4 [192] = true /\
-  (* a six-byte Remaining Length *)
-  (exists p, read_packet 4 [192; 128; 128; 128; 128; 0] = Ok (p, [])) /\
   (* five bytes make Unpack allocate 268435455 bytes *)
   read_alloc 4 [48; 255; 255; 255; 127] = 268435455 /\
   (* v5 SUBSCRIBE with Retain Handling 3 *)
   (exists p, read_packet 5 [130; 7; 0; 1; 0; 0; 1; 97; 48] = Ok (p, [])) /\
   spec_decode 5 [130; 7; 0; 1; 0; 0; 1; 97; 48] = SBad SRetainHandling /\
   (* PUBACK with reserved flag bits set *)
-  (exists p, read_packet 4 [79; 2; 0; 1] = Ok (p, [])) /\ spec_decode 4 [79; 2; 0; 1] = SBad SFlags.
+  (exists p, read_packet 4 [79; 2; 0; 1] = Ok (p, [])) /\ spec_decode 4 [79; 2; 0; 1] = SBad SFlags /\
+  (* a topic name with U+FFFD: ValidUTF8 accepts it, ValidTopicName(true, ..) does not *)
+  valid_utf8_impl [239; 191; 189] = Ok true /\ valid_topic_name_impl true [239; 191; 189] = Ok false.
+Proof. vm_compute. repeat split; eexists; reflexivity. Qed.
+
+(* the witnesses of the repaired defects now behave as the specification says *)
+Example C06_repaired :
+  (* a lone 0xC0, a remaining length cut short, a six-byte remaining length *)
+  read_packet 4 [192] = Err EEOF /\ read_packet 4 [48; 128] = Err EEOF /\
+  read_packet 4 [192; 128; 128; 128; 128; 0] = Err MALFORMED /\
+  (* the 3.1 CONNECT re-encodes to itself; Will QoS 3 is refused *)
+  match read_packet 4 connect31 with Ok (p, []) => pack (p_body p) = Ok connect31 | _ => False end /\
+  read_packet 4 connect_wq3 = Err MALFORMED /\
+  (* a 3.1.1 CONNACK decodes as 3.1.1 and re-encodes to itself *)
+  match read_packet 4 [32; 2; 0; 0] with Ok (p, []) => p_body p = BConnack 4 0 false None /\ pack (p_body p) = Ok [32; 2; 0; 0] | _ => False end /\
+  (* U+FFFD is valid UTF-8; "+a" and "$share/g/+a" are not filters *)
+  valid_utf8_impl [239; 191; 189] = Ok true /\ valid_topic_filter_impl true [43; 97] = Ok false /\
+  valid_v5_topic_impl [36; 115; 104; 97; 114; 101; 47; 103; 47; 43; 97] = Ok false /\
+  (* binary password (v3.1.1 CONNECT, password FF) and binary AuthData (v5 AUTH) are accepted *)
+  (exists p, read_packet 4 [16; 19; 0; 4; 77; 81; 84; 84; 4; 194; 0; 60; 0; 1; 99; 0; 1; 117; 0; 1; 255] = Ok (p, [])) /\
+  (exists p, read_packet 5 [240; 10; 24; 8; 21; 0; 1; 109; 22; 0; 1; 255] = Ok (p, [])).
 Proof. vm_compute. repeat split; eexists; reflexivity. Qed.
